@@ -200,7 +200,7 @@ func c01Sequential(r *core.Run, idx int, rng *rand.Rand) {
 			viol("success_despite_late_failure", "Success response although the "+late+" failure was injected for this session")
 		}
 		// whose data is it? the session the observation was made for
-		if strings.Contains(d.FullText(), "UMK") {
+		if strings.Contains(d.FullText(), "U_MK") {
 			owner := sc
 			if ev := call.First("AuthRequestByID"); ev != nil && len(ev.Args) == 1 && ev.Args[0] == other.S.ID {
 				owner = other
@@ -214,7 +214,7 @@ func c01Sequential(r *core.Run, idx int, rng *rand.Rand) {
 	r.Count("non_success_replies", 1)
 	r.Count("non_success_"+state+"_"+late, 1)
 	r.Seen("non_success_shapes", fmt.Sprintf("%d/%s", d.Status, d.Kind))
-	if why := leakScan(d, "UMK"); why != "" {
+	if why := leakScan(d, "U_MK"); why != "" {
 		viol("leak_in_non_success_reply", why)
 	}
 	if d.Msg != nil && d.Msg.StatusCode == "" {
@@ -304,7 +304,7 @@ func c01History(r *core.Run, idx int, rng *rand.Rand) {
 	e.W.UserFor = func(reqID, appID string) string {
 		umu.Lock()
 		defer umu.Unlock()
-		u := randUser(rand.New(rand.NewSource(int64(idx*1000+nextUser))), fmt.Sprintf("UMK%dx%dx", idx, nextUser), false)
+		u := randUser(rand.New(rand.NewSource(int64(idx*1000+nextUser))), fmt.Sprintf("U_MK%dx%dx", idx, nextUser), false)
 		nextUser++
 		users[reqID] = u
 		e.W.AddUser(u)
@@ -378,7 +378,7 @@ func c01History(r *core.Run, idx int, rng *rand.Rand) {
 					if call.D.Msg.NameID != s.user.Username {
 						vios = append(vios, vio{"success_for_wrong_user", fmt.Sprintf("NameID %q, session user %q", call.D.Msg.NameID, s.user.Username), call.Describe()})
 					}
-				} else if why := leakScan(call.D, "UMK"); why != "" {
+				} else if why := leakScan(call.D, "U_MK"); why != "" {
 					vios = append(vios, vio{"leak_in_non_success_reply", why, call.Describe()})
 				}
 				hmu.Unlock()
